@@ -119,7 +119,10 @@ def main():
                 mm, ii = runner.run([("s", cand)])
             except Exception:
                 return False
-            return any(o[0] == sig for o in mod.oracle(cand, ii.get("s", [])))
+            try:
+                return any(o[0] == sig for o in mod.oracle(cand, ii.get("s", [])))
+            except Exception:
+                return False
         return f
 
     seen_sig = set()
